@@ -202,7 +202,7 @@ struct World
   std::condition_variable cv;
   std::vector<Ev> log;
   uint64_t nData = 0, nWire = 0, nSendErr = 0;
-  std::set<uint64_t> cbConnected, cbClosed;
+  std::set<uint64_t> cbConnected, cbClosed, cbGotData;
   struct Acc { uint64_t sid; std::string peer, local; };
   std::vector<Acc> newAccepts;
   std::map<uint64_t, std::string> localOf;
@@ -268,6 +268,7 @@ struct Hist
   bool smallQueue = false, smallSnd = false;
   std::map<std::string, uint64_t> feat; // driver-side feature counters (signature + evidence)
   double waitScale = 1.0;
+  size_t sessionCap = 0; // TransportConfig::maxSessions (0 = unlimited)
   bool v6 = false; // the whole history runs over ::1 instead of 127.0.0.1
   const char *host() const { return v6 ? "::1" : "127.0.0.1"; }
   int iorasRcvBuf = 4 * 1024 * 1024; // --rcvbuf: only lowered by the self-test of the kernel-drop excuse
@@ -279,6 +280,8 @@ struct Hist
     codec.nonce = uint32_t(vf::fnv(md) ^ (s * 2654435761u) ^ (i * 40503u));
     vf::Rng fam(s ^ 0x66c06, i); // own stream: the address family does not disturb the rest of the history
     v6 = fam.chance(md == "idle" ? 0.25 : 0.15);
+    vf::Rng capr(s ^ 0xca9c06, i); // own stream as well: ~15 % of the mix histories run with a small session cap
+    if (md != "idle" && capr.chance(0.15)) sessionCap = size_t(capr.range(2, 6));
   }
 
   // ---------------------------------------------------------------- setup / teardown
@@ -294,6 +297,8 @@ struct Hist
     if (smallQueue) { cfg.maxWriteQueue = 1 + r.below(3); cfg.closeOnBackpressure = r.chance(0.5); }
     if (r.chance(0.15)) cfg.ioReadChunk = 65507;
     if (mode == "idle") { cfg.idleTimeout = std::chrono::seconds(1); cfg.gcInterval = std::chrono::seconds(1); }
+    cfg.maxSessions = sessionCap;
+    meta.maxSessions = sessionCap;
     T = Transport::udp(cfg);
     Tp = T.get();
     T->onAccept([this](SessionId sid, const TransportAddress &a) {
@@ -315,7 +320,9 @@ struct Hist
       Ev e; e.k = Ev::DATA; e.sid = sid;
       e.bytes.assign(reinterpret_cast<const char *>(d.data()), d.size());
       e.a2 = addrStr(Tp->getRemoteAddress(sid)); e.a3 = addrStr(Tp->getLocalAddress(sid));
-      W.add(std::move(e));
+      std::lock_guard<std::mutex> g(W.m);
+      W.cbGotData.insert(sid);
+      W.addLocked(std::move(e));
     });
     T->onClose([this](SessionId sid, const TransportErrorInfo &why) {
       Ev e; e.k = Ev::CLOSE; e.sid = sid; e.code = errName(why.code); e.bytes = why.message;
@@ -467,11 +474,28 @@ struct Hist
     feat["delivery_wait_timed_out"]++;
     waitScale = std::min(waitScale, 0.1);
   }
-  void waitData(uint64_t target, const char *label)
+  void waitData(uint64_t target, const char *label, bool mayBeRefused = false)
   {
-    if (!W.waitFor(watchdogMs() * waitScale, [&] { return W.nData >= target; })) noteDeliveryTimeout();
+    if (mayBeRefused)
+    {
+      // a peer without a receiving session sending while the engine is at its maxSessions cap may be
+      // refused: nothing to wait for beyond a moment (the checker decides from the complete log)
+      if (!W.waitFor(150, [&] { return W.nData >= target; })) feat["wait_skipped_peer_may_be_refused_at_session_cap"]++;
+    }
+    else if (!W.waitFor(watchdogMs() * waitScale, [&] { return W.nData >= target; })) noteDeliveryTimeout();
     mark(std::string("quiesce:") + label);
     absorb();
+  }
+  // ---- session cap (driver's view, used for pacing and step choice only)
+  size_t openCount() const { size_t n = 0; for (auto &kv : S) if (kv.second.open) n++; return n; }
+  bool atCap() const { return sessionCap && openCount() >= sessionCap; }
+  // the peer has an open listener-side session that was accepted for it or has already received from it
+  bool established(int p)
+  {
+    std::lock_guard<std::mutex> g(W.m);
+    for (auto &kv : S)
+      if (kv.second.open && kv.second.peer == p && (kv.second.kind == 'A' || (kv.second.kind == 'V' && W.cbGotData.count(kv.first)))) return true;
+    return false;
   }
   // Wait for the datagrams of the sends just made. A send is allowed to produce nothing (at most one
   // datagram), e.g. when the kernel refuses it and the engine closes the session (ENOBUFS for a fragmented
@@ -509,9 +533,11 @@ struct Hist
     if (l < 0) l = int(r.below(L.size()));
     if (!n) n = int(r.range(1, 4));
     uint64_t before = dataCount();
+    bool refusable = atCap() && !established(p);
+    if (atCap()) feat[refusable ? "step_new_peer_sends_at_session_cap" : "step_established_peer_sends_at_session_cap"]++;
     for (int i = 0; i < n; i++) psendOne(p, L[l].sa, L[l].addr, 0, 0, pickLen());
     feat["step_peer_send_to_listener"]++;
-    waitData(before + uint64_t(n), "peer-send");
+    waitData(before + uint64_t(n), "peer-send", refusable);
   }
   void stepPeerSendConnected()
   {
@@ -692,18 +718,23 @@ struct Hist
     for (size_t i = 0; i < theirs.size(); i++) yields.push_back(char(r.below(2)));
     std::thread helper([&] { c06::tlsHarness = true; for (size_t i = 0; i < theirs.size(); i++) { fire(theirs[i]); if (yields[i]) sched_yield(); } });
     size_t mi = 0;
+    std::set<int> strangers; // peers without a receiving session: each may take a session slot or be refused at the cap
+    size_t openBefore = openCount();
     for (int i = 0; i < np; i++)
     {
       int pp = pickPeer(true);
       int ll = int(r.below(L.size()));
       uint32_t len = pickLen();
+      if (sessionCap && !established(pp)) strangers.insert(pp);
       psendOne(pp, L[ll].sa, L[ll].addr, 0, 0, len);
       if (mi < mine.size()) fire(mine[mi++]);
     }
+    bool refusable = sessionCap && !strangers.empty() && openBefore + strangers.size() > sessionCap;
     while (mi < mine.size()) fire(mine[mi++]);
     helper.join();
     feat["step_burst_both_ways"]++;
-    if (!W.waitFor(watchdogMs() * waitScale, [&] { return W.nData >= dBefore + uint64_t(np); })) noteDeliveryTimeout();
+    if (refusable) { if (!W.waitFor(300, [&] { return W.nData >= dBefore + uint64_t(np); })) feat["wait_skipped_peer_may_be_refused_at_session_cap"]++; }
+    else if (!W.waitFor(watchdogMs() * waitScale, [&] { return W.nData >= dBefore + uint64_t(np); })) noteDeliveryTimeout();
     std::vector<uint64_t> bsids;
     for (auto &pr : mine) bsids.push_back(pr.sid);
     for (auto &pr : theirs) bsids.push_back(pr.sid);
@@ -743,6 +774,38 @@ struct Hist
     if (r.chance(0.5)) stepPeerSend(p, int(r.below(L.size())), 1);
   }
 
+  // session cap: bring the engine to maxSessions, then (a) a peer that already has a receiving session sends
+  // again - the cap must not touch it - and (b) a peer without one sends - it may be refused, which is counted
+  void motifAtCap()
+  {
+    feat["motif_at_session_cap"]++;
+    int l = int(r.below(L.size()));
+    // an established peer (make room for one if there is none)
+    int p = -1;
+    for (size_t i = 0; i < P.size() && p < 0; i++) if (established(int(i))) p = int(i);
+    if (p < 0)
+    {
+      while (atCap()) { auto all = openSessions(); if (all.empty()) break; stepClose(r.pick(all)); }
+      p = int(r.below(P.size()));
+      stepPeerSend(p, l, 1);
+    }
+    // fill up: connect() sessions are not cap-checked but count; new peers take slots through implicit accepts
+    for (int guard = 0; !atCap() && guard < 12; guard++)
+    {
+      if (r.chance(0.5)) stepConnect(int(r.below(P.size())));
+      else { int q = int(r.below(P.size())); if (established(q)) stepVia(q, l); else stepPeerSend(q, l, 1); }
+    }
+    if (!atCap()) { feat["motif_at_session_cap_not_reached"]++; return; }
+    stepPeerSend(p, l, int(r.range(1, 3)));                       // (a)
+    int q = -1;
+    for (size_t i = 0; i < P.size() && q < 0; i++) if (!established(int(i))) q = int(i);
+    if (q >= 0) stepPeerSend(q, l, int(r.range(1, 2)));           // (b)
+    if (r.chance(0.5)) stepVia(r.chance(0.5) ? p : int(r.below(P.size())), l); // refused at the cap (close, no connect event)
+    if (r.chance(0.5)) stepConnect(int(r.below(P.size())));      // pushes the count past the cap
+    stepPeerSend(p, int(r.below(L.size())), int(r.range(1, 2)));  // (a) again
+    if (r.chance(0.5)) { auto all = openSessions([&](const DS &d) { return d.peer != p; }); if (!all.empty()) stepClose(r.pick(all)); if (q >= 0) stepPeerSend(q, l, 1); }
+  }
+
   void runMix()
   {
     int steps = int(r.range(30, 70));
@@ -754,6 +817,7 @@ struct Hist
     for (int s = 0; s < steps; s++)
     {
       if (motifAt.count(s)) { motifOtherClose(); continue; }
+      if (sessionCap && (s == steps / 3 || s == (2 * steps) / 3)) { motifAtCap(); continue; }
       uint64_t x = r.below(100);
       if (x < 24) stepPeerSend();
       else if (x < 36) stepTSend(r.chance(0.35));
@@ -891,10 +955,10 @@ struct Hist
   }
   std::string cfgJson() const
   {
-    char b[400];
-    snprintf(b, sizeof b, "{\"mode\":%s,\"seed\":%llu,\"index\":%llu,\"ipv6\":%d,\"listeners\":%zu,\"peers\":%zu,\"edgeTriggered\":%d,\"batching\":%d,\"soSndBuf\":%d,\"maxWriteQueue\":%zu,\"closeOnBackpressure\":%d,\"ioReadChunk\":%zu}",
+    char b[600];
+    snprintf(b, sizeof b, "{\"mode\":%s,\"seed\":%llu,\"index\":%llu,\"ipv6\":%d,\"listeners\":%zu,\"peers\":%zu,\"edgeTriggered\":%d,\"batching\":%d,\"soSndBuf\":%d,\"maxWriteQueue\":%zu,\"closeOnBackpressure\":%d,\"ioReadChunk\":%zu,\"maxSessions\":%zu}",
              vf::jstr(mode).c_str(), (unsigned long long)seed, (unsigned long long)idx, int(v6), L.size(), P.size(), int(cfg.useEdgeTriggered), int(cfg.batching.enabled), cfg.soSndBuf,
-             cfg.maxWriteQueue, int(cfg.closeOnBackpressure), cfg.ioReadChunk);
+             cfg.maxWriteQueue, int(cfg.closeOnBackpressure), cfg.ioReadChunk, sessionCap);
     return b;
   }
   void judge()
@@ -931,6 +995,7 @@ struct Hist
     O.obs("events_logged", W.log.size());
     if (L.size() == 2) O.obs("histories_two_listeners");
     O.obs(v6 ? "histories_ipv6" : "histories_ipv4");
+    if (sessionCap) O.obs("histories_session_cap");
     if (cfg.batching.enabled) O.obs("histories_batched_loop");
     if (!cfg.useEdgeTriggered) O.obs("histories_level_triggered");
     if (smallSnd) O.obs("histories_small_sndbuf");
@@ -938,7 +1003,7 @@ struct Hist
     auto has = [&](const char *k) { auto it = R.obs.find(k); return it != R.obs.end() && it->second > 0; };
     uint64_t sig = vf::fnv(mode);
     auto mixin = [&](uint64_t v) { sig = (sig ^ v) * 1099511628211ull; };
-    mixin(L.size()); mixin(v6); mixin(P.size() > 4); mixin(cfg.useEdgeTriggered); mixin(cfg.batching.enabled); mixin(smallSnd); mixin(smallQueue); mixin(cfg.ioReadChunk == 65507);
+    mixin(L.size()); mixin(v6); mixin(sessionCap != 0); mixin(has("datagrams_from_new_peer_refused_at_session_cap")); mixin(P.size() > 4); mixin(cfg.useEdgeTriggered); mixin(cfg.batching.enabled); mixin(smallSnd); mixin(smallQueue); mixin(cfg.ioReadChunk == 65507);
     mixin(has("via_to_peer_with_open_receiving_session")); mixin(has("close_of_other_session_while_receiving_session_open"));
     mixin(has("probes_after_close_of_other_session")); mixin(has("delivered_ge_60000")); mixin(has("wire_ge_60000")); mixin(has("delivered_lt_16"));
     mixin(has("closes_idle_expiry")); mixin(has("closes_on_error")); mixin(has("connects")); mixin(has("delivered_on_session_of_another_listener"));
